@@ -92,12 +92,14 @@ type Invalid struct {
 
 // Case is one generated case.
 type Case struct {
-	Kind    string   `json:"kind"` // roundtrip | invalid | shortwrite | sizemismatch
+	Kind    string   `json:"kind"` // roundtrip | invalid | shortwrite | sizemismatch | afterfailure
 	Msgs    []Msg    `json:"msgs"`
 	Plan    gen.Plan `json:"plan"`
 	Invalid *Invalid `json:"invalid,omitempty"`
 	Limit   int      `json:"limit,omitempty"`   // shortwrite: bytes accepted per Write
 	SizeOff int      `json:"sizeoff,omitempty"` // sizemismatch: Header.Size - len(Payload)
+	Fail    string   `json:"fail,omitempty"`    // afterfailure: eof | error | partial-eof | partial-error
+	Repeat  int      `json:"repeat,omitempty"`  // afterfailure: how often the failing write is attempted
 }
 
 var u32 = rapid.OneOf(rapid.SampledFrom([]uint32{0, 1, 2, 0x7fffffff, 0x80000000, 0xffffffff, 0x42dead42, 0x42adde42}), rapid.Uint32())
@@ -144,7 +146,7 @@ func genMsg(t *rapid.T, big bool) Msg {
 }
 
 func genCase(t *rapid.T) Case {
-	kind := rapid.SampledFrom([]string{"roundtrip", "roundtrip", "roundtrip", "invalid", "invalid", "shortwrite", "sizemismatch"}).Draw(t, "kind")
+	kind := rapid.SampledFrom([]string{"roundtrip", "roundtrip", "roundtrip", "invalid", "invalid", "shortwrite", "sizemismatch", "afterfailure"}).Draw(t, "kind")
 	c := Case{Kind: kind, Plan: gen.FragPlan().Draw(t, "plan")}
 	big := vt.Thorough() && rapid.IntRange(0, 400).Draw(t, "big") == 0
 	switch kind {
@@ -185,6 +187,15 @@ func genCase(t *rapid.T) Case {
 	case "sizemismatch":
 		c.Msgs = []Msg{genMsg(t, false)}
 		c.SizeOff = rapid.SampledFrom([]int{-1, 1, 2, 28, -28, 1000}).Draw(t, "sizeoff")
+	case "afterfailure":
+		// a write that fails, then ordinary writes: the failure must not leak into them
+		n := rapid.IntRange(2, 4).Draw(t, "n")
+		for i := 0; i < n; i++ {
+			c.Msgs = append(c.Msgs, genMsg(t, false))
+		}
+		c.Fail = rapid.SampledFrom([]string{"eof", "error", "partial-eof", "partial-error"}).Draw(t, "fail")
+		c.Limit = rapid.SampledFrom([]int{1, 10, 28, 29}).Draw(t, "part")
+		c.Repeat = rapid.IntRange(1, 3).Draw(t, "repeat")
 	}
 	return c
 }
@@ -205,6 +216,8 @@ func checkCase(c Case) error {
 		return checkShortWrite(c)
 	case "sizemismatch":
 		return checkSizeMismatch(c)
+	case "afterfailure":
+		return checkAfterFailure(c)
 	}
 	return vt.Violationf("C01:bad-case", "unknown kind %q", c.Kind)
 }
@@ -363,6 +376,60 @@ func checkSizeMismatch(c Case) error {
 		return vt.Violationf("C01:sizemismatch-wrote", "Write refused the message but had written %d bytes", len(w.Bytes()))
 	}
 	vt.Case(true, key(c), "kind=sizemismatch")
+	return nil
+}
+
+// failWriter fails every Write in the configured way.
+type failWriter struct {
+	mode string
+	part int
+}
+
+func (w *failWriter) Write(p []byte) (int, error) {
+	n := 0
+	if w.mode == "partial-eof" || w.mode == "partial-error" {
+		// never the whole buffer: writing everything together with io.EOF is
+		// documented as a success of WriteN
+		n = w.part
+		if n > len(p)-1 {
+			n = len(p) - 1
+		}
+		if n < 0 {
+			n = 0
+		}
+	}
+	if w.mode == "eof" || w.mode == "partial-eof" {
+		return n, io.EOF
+	}
+	return n, hio.ErrInjected
+}
+
+// checkAfterFailure: the first message is written to a failing stream (the
+// write must report an error), then the remaining ones are written normally:
+// their wire bytes must be exactly theirs.
+func checkAfterFailure(c Case) error {
+	first := mkMessage(c.Msgs[0])
+	for i := 0; i < c.Repeat; i++ {
+		if err := first.Write(&failWriter{mode: c.Fail, part: c.Limit}); err == nil {
+			return vt.Violationf("C01:failed-write-accepted", "Write to a stream failing with %s reported success", c.Fail)
+		}
+	}
+	rest := c.Msgs[1:]
+	stream, err := writeAll(rest)
+	if err != nil {
+		return err
+	}
+	r := hio.NewFragReader(stream, c.Plan.Chunks, c.Plan.EOFWith)
+	for i, m := range rest {
+		var got qnet.Message
+		if err := got.Read(r); err != nil {
+			return vt.Violationf("C01:read-error", "message %d written after a failed write: Read failed: %v", i, err)
+		}
+		if got.Header.ID != m.ID || !bytes.Equal(got.Payload, m.payload()) {
+			return vt.Violationf("C01:payload-mismatch", "message %d written after a failed write reads back differently", i)
+		}
+	}
+	vt.Case(true, key(c), "kind=afterfailure", "fail="+c.Fail)
 	return nil
 }
 
